@@ -239,6 +239,9 @@ func (r *WireReader) Range(start, end int) Wire {
 	if start < 0 || end > r.accSz[len(r.wire)] || start > end {
 		return nil
 	}
+	if start == end {
+		return Wire{}
+	}
 	var startSeg, startPos, endSeg, endPos int
 	for i := 0; i < len(r.wire); i++ {
 		if r.accSz[i] <= start && r.accSz[i+1] > start {
@@ -256,7 +259,7 @@ func (r *WireReader) Range(start, end int) Wire {
 		ret := make(Wire, endSeg-startSeg+1)
 		ret[0] = r.wire[startSeg][startPos:]
 		for i := startSeg + 1; i < endSeg; i++ {
-			ret[i] = r.wire[i]
+			ret[i-startSeg] = r.wire[i]
 		}
 		ret[endSeg-startSeg] = r.wire[endSeg][:endPos]
 		return ret
